@@ -42,14 +42,20 @@
 (* observer's condition is never true: nothing stops the OTHER workers, which *)
 (* consume the rest of the input (AbortBound).  The `cancel` branch of WExit  *)
 (* is dead in the model exactly as in the code (TLC -coverage: never taken).  *)
-(* AbortCancels = TRUE is the repair fixes/workergroup-abort-cancels.diff: the*)
+(* AbortCancels = TRUE is the PROPOSED repair (fixes/workergroup-abort-       *)
+(* cancels.diff; committed as 21f453d + b7fb6b2 and WITHDRAWN again in        *)
+(* 41ff5f4 because the baseline test TestParallelForEach/AbortOnPanic does    *)
+(* not tolerate the cancellation - the defect is a known finding,             *)
+(* wgerr/<construct>/abort/other-workers-consume-input...).  The registered   *)
+(* MC_wf_* configs check that DESIGN (AbortCancels = TRUE); the code as it    *)
+(* is corresponds to the MC_wf_*_asis_abort configs.  With the repair the     *)
 (* group is cancelled where "cannot continue" is decided.  For GenerateParallel*)
 (* that alone is not enough (TLC: AbortBound still violated with              *)
 (* GenChecksCtx = FALSE): the worker loop calls the generator without looking *)
 (* at the context, and the following send is a select between ctx.Done and a  *)
 (* buffered send that may well win - so the repair also checks the context    *)
 (* before every generator call (GenChecksCtx = TRUE).  A residue of that      *)
-(* repair (GenEofByIs = TRUE, as committed): "unless the generator is just    *)
+(* repair's first version (GenEofByIs = TRUE, 21f453d): "the generator is just *)
 (* done" was tested with errors.Is(err, io.EOF), which also holds for a       *)
 (* recovered PANIC whose value is / wraps io.EOF - that abort did not cancel  *)
 (* (MC_wf_gen_asis_paniceof.cfg: AbortBound).                                 *)
@@ -74,8 +80,8 @@ CONSTANTS Construct,      \* "pp" | "map" | "gen"
           AbortCancels,   \* BOOLEAN: FALSE = as pinned, TRUE = with the proposed repair
           GenChecksCtx,   \* BOOLEAN: gen only - the worker checks ctx.Err() before calling the generator
           GenEofByIs,     \* BOOLEAN: gen only - "the generator is just done" is tested with errors.Is(err, io.EOF), which
-                          \* is also true for a recovered panic whose value is / wraps io.EOF (TRUE = as committed in
-                          \* 4f757ff; FALSE = fixes/generate-abort-on-eof-valued-panic.diff: a returned io.EOF only)
+                          \* is also true for a recovered panic whose value is / wraps io.EOF (TRUE = first version of
+                          \* the proposed repair, 21f453d; FALSE = fixes/generate-abort-on-eof-valued-panic.diff)
           ResolverSame    \* BOOLEAN: TRUE = the resolver reads the collector the handler writes (the code)
 
 None == 0
